@@ -60,18 +60,15 @@ impl JoinedTableData {
                 }
             }
 
-            if let Ok(line) = line {
-                let result = execution_engine.execute(line.clone(), &config)?.result_row;
-                if let Some(result) = result {
-                    for row in result.data {
-                        joined_table_data.add_row(
-                            row.columns[join_on_column_index].clone(),
-                            row
-                        );
-                    }
+            let line = line.map_err(|err| ExecutionError::FailReadFile(format!("{}", err)))?;
+            let result = execution_engine.execute(line, &config)?.result_row;
+            if let Some(result) = result {
+                for row in result.data {
+                    joined_table_data.add_row(
+                        row.columns[join_on_column_index].clone(),
+                        row
+                    );
                 }
-            } else {
-                break;
             }
         }
 
